@@ -6,7 +6,7 @@
  * cases.txt, one case per line, integers:
  *   id n ns det A[n*n]   and, if ns = 1 (non-singular):
  *   inv[(num den) n*n]  b[n]  x[(num den) n]  X[(n+1)*n]  y[n+1]  beta[(num den) n]  pinv[(num den) n*(n+1)]
- * Each case is run on A * 2^-e for e = 0 and e = 14 (same conditioning; exact in double); the expectations scale.
+ * Each case is run on A * 2^-e for e = 0 and e = 14, every third case also for e = 34 and e = -30 (same conditioning; exact in double); the expectations scale.
  * Tolerance: 1e-9 * cond (cond = |A|_F |A^-1|_F from the exact inverse) relative to the largest expected entry.
  * Output: Fail{id,routine,exp,i,j,got,want} lines and a final Done line; if the process is killed by a sanitizer or a
  * signal, a Crash{id,routine,exp} line is written first (death callback / signal handler).
@@ -103,6 +103,9 @@ static void run_case(const kase *k, int e){
     cmp_vec(k, bta, n, w, 1e-9 * condx * condx);
     cur_routine = "MatrixMoorePenrosePseudoinverse";
     matrix *P; initMatrix(&P); MatrixMoorePenrosePseudoinverse(X, P); cmp_mat(k, P, n, n + 1, W, 1e-9 * condx * condx);
+    /* second call into the output of the first (right shape, holding the previous result) and into a sized output holding stale numbers */
+    MatrixMoorePenrosePseudoinverse(X, P); cmp_mat(k, P, n, n + 1, W, 1e-9 * condx * condx);
+    DelMatrix(&P); NewMatrix(&P, n, n + 1); MatrixSet(P, 2.75); MatrixMoorePenrosePseudoinverse(X, P); cmp_mat(k, P, n, n + 1, W, 1e-9 * condx * condx);
     DelMatrix(&P); DelMatrix(&X); DelDVector(&y); DelDVector(&bta); }
   DelMatrix(&A);
 }
@@ -137,6 +140,9 @@ int main(int argc, char **argv){
     if(k.id < start) continue;
     ncases++;
     run_case(&k, 0); run_case(&k, 14);
+    /* the routines are claimed for every well-conditioned matrix whatever its units: far smaller and far larger units
+       (2^-34 ~ 6e-11, 2^30 ~ 1e9; still exact in double) on every third case */
+    if(k.id % 3 == 0){ run_case(&k, 34); run_case(&k, -30); }
   }
   VRT_EMIT("{\"e\":\"Done\",\"cases\":%ld,\"runs\":%ld,\"fails\":%ld}", ncases, nruns, nfail);
   vrt_close(); fclose(f);
